@@ -65,6 +65,12 @@ CHECKS = {
   "`[(.a*.b), .a, .b]` and `(.a*.b) as $m | .` leave the operands as they were, and `yq ea '. as $i ireduce ({}; . * $i)' f1..fN` equals the left fold. Held on the cases generated.",
   "The region the property leaves open (kind conflict combined with + ? n) is skipped; `+d` together is asserted as observed.",
   "DESIGN.md §5 C04"),
+ "C08": ("exploration",
+  "metamorphic side-effect monitor: the document printed after evaluating an assignment-free expression in each position the property names must be byte-identical to `yq .`",
+  "15 placement templates (variable binding, select, any_c/all_c, sort_by/group_by/unique_by keys, has/contains/pick arguments, both operands of every binary operator in a writable context, map/filter) "
+  "x generated read-only expressions (core fragment + ~100 read-only operator snippets) x documents. The auto-creation deviation is excused only when the difference consists solely of auto-creation artefacts. Held on the cases generated.",
+  "In-place operators (assignment family, del, explode, sort_keys, map_values, with, setters) are outside E by the property's wording.",
+  "DESIGN.md §5 C08"),
  "C09": ("exploration",
   "metamorphic parser monitor: minimal-parenthesis vs fully parenthesised vs layout-varied spellings of generated ASTs must parse to the same tree and evaluate to the same bytes; broken token lists must be rejected; live precedence table == frozen table (verif hook)",
   "Every ordered pair of binary operators (882-cell matrix) is forced through the real lexer, shunting-yard and tree builder; trees are compared modulo re-association of "
